@@ -1,3 +1,4 @@
+import LibconfigModel.Generated.Constants
 import LibconfigModel.Step
 import LibconfigModel.Proofs.F64Exact
 /-
@@ -224,5 +225,11 @@ theorem C07_family_by_path (k : Kind) (c : Config) (path : Bytes) :
 /-- non-vacuity: an int64 setting holding 2^31 is not readable as int, 5 is -/
 example : ({ ty := T_INT64, ival := 2147483648 } : Node).getInt true = none := by decide
 example : ({ ty := T_INT64, ival := 5 } : Node).getInt true = some 5 := by decide
+
+/-- Bridge: the auto-convert option bit and the type codes -/
+theorem C07_constants :
+    Generated.CONFIG_OPTION_AUTOCONVERT = OPT_AUTOCONVERT ∧ Generated.CONFIG_TYPE_INT = T_INT ∧
+    Generated.CONFIG_TYPE_INT64 = T_INT64 ∧ Generated.CONFIG_TYPE_FLOAT = T_FLOAT ∧
+    Generated.CONFIG_TYPE_STRING = T_STRING ∧ Generated.CONFIG_TYPE_BOOL = T_BOOL := by decide
 
 end Libconfig.C07
